@@ -11,7 +11,7 @@ from vf import hist
 
 
 def run_shape(start, mode, direction, dp, desc, ratio=None, res=None,
-              pre=None, labels=None):
+              pre=None, labels=None, rehearse=None):
     """Execute one tracer request on a fresh builder.
 
     start: (x, y, z) set exactly with set_axis (G92) or None (unknown position)
@@ -34,6 +34,19 @@ def run_shape(start, mode, direction, dp, desc, ratio=None, res=None,
         res = L / ratio
         if not res > 1e-300:
             res = 0.05      # zero-length / subnormal-length request: any valid resolution
+    if rehearse:
+        # the very same request is traced first at another resolution
+        # (res * rehearse) on this builder; then the head is re-zeroed to the
+        # start (G92) and the request is issued again at `res`
+        p_start = g.position.resolve()
+        g.set_resolution(float(res) * float(rehearse))
+        try:
+            getattr(g.trace, method)(*args, **kw)
+        except Exception:
+            pass
+        g.set_axis(x=float(p_start.x), y=float(p_start.y), z=float(p_start.z))
+        s.poll()
+        method, args, kw, info = hist.build_shape(g, desc)
     g.set_resolution(float(res))
     p0 = g.position.resolve()
     start_abs = (float(p0.x), float(p0.y), float(p0.z))
